@@ -173,8 +173,16 @@ pvf_read_header (SF_PRIVATE *psf)
 				return SFE_PVF_BAD_BITWIDTH ;
 		} ;
 
-	psf->dataoffset = psf_ftell (psf) ;
+	/*
+	**	The audio data starts where the header text ends. That is not the file
+	**	position : the type detection has read 12 bytes and the shortest header
+	**	is 11 bytes long.
+	*/
+	psf->dataoffset = psf->header.indx ;
 	psf_log_printf (psf, " Data Offset : %D\n", psf->dataoffset) ;
+
+	if (psf_ftell (psf) != psf->dataoffset)
+		psf_fseek (psf, psf->dataoffset, SEEK_SET) ;
 
 	psf->endian = SF_ENDIAN_BIG ;
 
